@@ -111,8 +111,18 @@ def r2_seed(ck, F, R="C06-R2"):
             base = [x for x in src.walk() if x.k == "field" and x.x["name"] == "sources"]
             ck.ob(R, "enumerate-over-sources", chain.count("enumerate") == 1 and set(chain) <= {"next", "into_iter", "enumerate"} and len(base) == 1,
                   f"items come from {chain} over self.sources (position = order in which sources were added; no rev/skip/filter)", b, s)
-    ps = calls(b, "BinaryHeap::<T, A>::push")
-    ck.exact(R, "heap pushes while seeding", len(ps), 1, F.config)
+    # the entry goes into the heap directly, or into a vector that becomes the heap (BinaryHeap::from(vec))
+    ps = [x for x in list(calls(b, "BinaryHeap::<T, A>::push")) + list(calls(b, "Vec::<T, A>::push"))
+          if any(y.k == "agg" and y.x.get("adt") == "merger::Entry" for y in b.arg_exprs(x[0])[1].walk())]
+    ck.exact(R, "pushes of a source entry while seeding", len(ps), 1, F.config)
+    for bb_, s_, rv_ in aggregates(F, "merger::MergerIter"):
+        if bb_.path != b.path or not ps:
+            continue
+        he = agg_field_expr(b, s_, rv_, "heap").strip()
+        cont = b.arg_exprs(ps[0][0])[0].strip()
+        while he.k == "call" and he.a and he.x["path"].rsplit("::", 1)[-1] in ("from", "into", "from_iter", "collect", "into_iter", "from_vec"):
+            he = he.a[0].strip()
+        ck.ob(R, "seeded-entries-become-the-heap", he.ident() == cont.ident(), f"MergerIter.heap is built from the container the source entries were pushed into ({he.show()[:50]})", b, s_)
     mv = calls(b, A("rc_prefix") + "move_on_next")
     ck.exact(R, "initial move_on_next per source", len(mv), 1, F.config)
     if ps and mv:
@@ -141,7 +151,7 @@ def r3_builder(ck, F):
                 touched.append((b, s, callee_name(c).rsplit("::", 1)[-1]))
     bad = [(b.loc(s), n) for b, s, n in touched if n in REORDER]
     names = sorted({n for b, s, n in touched})
-    ck.ob(R, "sources-only-appended", not bad and set(names) <= {"push", "extend", "into_iter", "enumerate"}, f"the sources vector is only touched by {names}" + (f" — reordering call(s): {bad}" if bad else ""), config=F.config)
+    ck.ob(R, "sources-only-appended", not bad and set(names) <= {"push", "extend", "into_iter", "enumerate", "len", "is_empty", "iter", "capacity", "reserve", "as_slice", "deref"}, f"the sources vector is only touched by {names}" + (f" — reordering call(s): {bad}" if bad else ""), config=F.config)
     ck.floor(R, "uses of the sources vector", len(touched), 3, F.config)
     for bb, s, rv in aggregates(F, "merger::Merger"):
         ck.ob(R, "sources-moved-whole", is_self_field(agg_field_expr(bb, s, rv, "sources"), "sources") and is_self_field(agg_field_expr(bb, s, rv, "merge"), "merge"), "build() moves the vector into the Merger unchanged", bb, s)
@@ -219,8 +229,53 @@ def value_seq(b, vals, m):
     return [("?", v.show()[:50])]
 
 
+def assume_heap_entries_current(ck, R, b):
+    """Invariant of the merge heap: every entry in it lies on an entry of its source (`cursor.current()` is
+    Some) — entries are pushed only right after a `move_on_next()` that returned Some (C06-R2 pushed-iff-non-empty
+    at seeding time, C06-R5 pushed-iff-not-exhausted when put back; both are obligations of this same check).
+    Under it, tests of `entry.cursor.current()` for an entry just popped / peeked are decided: their "no current
+    entry" arms (defensive code) are dead and are not analysed as behaviour."""
+    if getattr(b, "_heap_inv", False):
+        return
+    b._heap_inv = True
+    forced = {}
+
+    def from_heap(e):
+        e = e.strip()
+        if not (e.k == "call" and e.x["path"].endswith("ReaderCursor::<R>::current") and e.a):
+            return False
+        c = e.a[0].strip()
+        if not (c.k == "field" and c.x["name"] == "cursor"):
+            return False
+        p = unwrap_payload(c.a[0], "Some")
+        if p is None:
+            return False
+        p = p.strip()
+        return p.k == "call" and p.x["path"].rsplit("::", 1)[-1] in ("pop", "peek", "peek_mut") and "BinaryHeap" in p.x["path"] and p.a and is_self_field(p.a[0], "heap")
+    for bb in sorted(b.normal_blocks()):
+        t = b.term(bb)
+        if t["t"] != "switch":
+            continue
+        e, enum, labels, oth = switch_on(b, bb)
+        if e.k == "discr" and enum == "std::option::Option" and from_heap(e.a[0]):
+            forced[bb] = 1
+        else:
+            d = b.expr_of_operand(t["discr"], Site(bb, None))
+            neg = False
+            while d.k == "un" and d.x.get("op") == "Not":
+                neg, d = not neg, d.a[0]
+            if d.k == "call" and d.x["path"].endswith("Option::<T>::is_some") and d.a and from_heap(d.a[0]):
+                forced[bb] = 0 if neg else 1
+            elif d.k == "call" and d.x["path"].endswith("Option::<T>::is_none") and d.a and from_heap(d.a[0]):
+                forced[bb] = 1 if neg else 0
+    if forced:
+        b.force_switches(forced)
+    ck.ob(R, "heap-invariant-applied", True, f"{len(forced)} test(s) of `entry.cursor.current()` on heap entries resolved by the heap invariant (entries are pushed only after a successful move_on_next)", b, nontrivial=False)
+
+
 def r4_merge_once(ck, F, R="C06-R4"):
     b = F.body(A("merger_iter_next"))
+    assume_heap_entries_current(ck, R, b)
     ms = calls(b, "MergeFunction::merge")
     ck.floor(R, "merge call sites in MergerIter::next", len(ms), 1, F.config)
     pops = calls(b, "BinaryHeap::<T, A>::pop")
@@ -287,6 +342,7 @@ def r4_merge_once(ck, F, R="C06-R4"):
 
 def r5_pop_push(ck, F, R="C06-R5"):
     b = F.body(A("merger_iter_next"))
+    assume_heap_entries_current(ck, R, b)
     pops = sorted(calls(b, "BinaryHeap::<T, A>::pop"), key=lambda x: x[0].key())
     ck.exact(R, "heap pops in MergerIter::next", len(pops), 2, F.config)
     if len(pops) != 2:
@@ -307,6 +363,19 @@ def r5_pop_push(ck, F, R="C06-R5"):
             ed = (ed[0], ed[2], ed[1])      # the edge taken when the keys are equal is the false edge of `!=`
         ok = ed is not None and b.dominates(ed[1], p2.bb) and not b.dominates(ed[2], p2.bb) and b.in_loop(p2.bb)
         ck.ob(R, "gather-arms", ok, "equal => pop it into tmp_entries and continue; different => stop gathering", b, c["site"])
+    # gathering is never skipped: reaching the inspection of the heap top depends on nothing but "there was a first entry"
+    pk = [s for s, c, t in calls(b, "BinaryHeap::<T, A>::peek")]
+    ck.floor(R, "inspections of the heap top while gathering", len(pk), 1, F.config)
+    for s in pk:
+        extra = []
+        for gbb in success_guards(b, s):
+            ge = b.expr_of_operand(b.term(gbb)["discr"], Site(gbb, None))
+            sh = ge.show()
+            okg = (ge.k == "discr" and any(x.k == "call" and x.x.get("site") == p1 for x in ge.walk())) or \
+                  (ge.k == "discr" and any(x.k == "call" and x.x["path"].endswith("BinaryHeap::<T, A>::peek") for x in ge.walk()))
+            if not okg:
+                extra.append(sh[:60])
+        ck.ob(R, "gather-not-skippable", not extra, "every call inspects the heap top for entries with the same key" + (f" — NOT: gathering is skipped depending on {extra}" if extra else ""), b, s)
     pt = [s for s, c, t in calls(b, "Vec::<T, A>::push") if is_self_field(b.arg_exprs(s)[0], "tmp_entries")]
     ok = len(pt) == 1 and any(e.k == "call" and e.x.get("site") == p2 for e in b.arg_exprs(pt[0])[1].walk())
     ck.ob(R, "gathered-entry-kept", ok, "the gathered entry is kept in tmp_entries (appended, in pop order)", b)
